@@ -65,21 +65,24 @@ let rec read_entity (r : string list ref) : M.entity =
 let join_or_dash l = if l = [] then "-" else String.concat "," l
 
 let show_state (st : M.mstate) : string =
-  let part (p : M.pobs) = hex_of_bytes p.M.p_ct ^ ":" ^ hex_of_bytes p.M.p_cs ^ ":" ^ hex_of_bytes p.M.p_enc ^ ":" ^ hex_of_bytes p.M.p_content in
-  let file (f : M.fobs) = hex_of_bytes f.M.fo_name ^ ":" ^ hex_of_bytes f.M.fo_cid ^ ":" ^ hex_of_bytes f.M.fo_bytes in
-  let gen = List.sort compare (List.map (fun (k, _) -> hex_of_bytes k) st.M.m_gen) in
+  let ((((((cs, enc), parts), atts), embs), gens), (((afrom, ato), acc), abcc)) = M.state_tuple st in
+  let part (p : M.pobs) = let (((ct, pcs), penc), content) = M.pobs_tuple p in
+    hex_of_bytes ct ^ ":" ^ hex_of_bytes pcs ^ ":" ^ hex_of_bytes penc ^ ":" ^ hex_of_bytes content in
+  let file (f : M.fobs) = let ((name, cid), data) = M.fobs_tuple f in
+    hex_of_bytes name ^ ":" ^ hex_of_bytes cid ^ ":" ^ hex_of_bytes data in
+  let gen = List.sort compare (List.map (fun (k, _) -> hex_of_bytes k) gens) in
   let al l = join_or_dash (List.map hex_of_bytes l) in
-  let a = st.M.m_addrs in
   Printf.sprintf "ok cs=%s enc=%s parts=%s att=%s emb=%s gen=%s from=%s to=%s cc=%s bcc=%s"
-    (hex_of_bytes st.M.m_charset) (hex_of_bytes st.M.m_enc)
-    (join_or_dash (List.map part st.M.m_parts))
-    (join_or_dash (List.map file st.M.m_atts))
-    (join_or_dash (List.map file st.M.m_embs))
-    (join_or_dash gen) (al a.M.a_from) (al a.M.a_to) (al a.M.a_cc) (al a.M.a_bcc)
+    (hex_of_bytes cs) (hex_of_bytes enc)
+    (join_or_dash (List.map part parts))
+    (join_or_dash (List.map file atts))
+    (join_or_dash (List.map file embs))
+    (join_or_dash gen) (al afrom) (al ato) (al acc) (al abcc)
 
 (* generic header values that C10 looks at (Subject, Date): raw value handed to SetGenHeader *)
 let show_gen_values (st : M.mstate) : string =
-  let get k = (match List.find_opt (fun (k', _) -> hex_of_bytes k' = k) st.M.m_gen with
+  let ((((((_, _), _), _), _), gens), _) = M.state_tuple st in
+  let get k = (match List.find_opt (fun (k', _) -> hex_of_bytes k' = k) gens with
                | Some (_, v) -> hex_of_bytes v | None -> "-") in
   Printf.sprintf "subj=%s date=%s" (get "5375626a656374") (get "44617465")
 
@@ -131,6 +134,22 @@ let run (toks : string list) : string =
       let plist v = (match List.find_opt (fun (k, _) -> k = v) tbl with Some (_, r) -> r | None -> M.AErr) in
       (match M.eml_parse (fun _ -> read_ares from) plist (fun _ -> read_dres date) (bytes_of_hex raw) with
        | M.Ok st -> show_state st ^ " " ^ show_gen_values st
+       | M.Err -> "err"
+       | M.Panic -> "panic")
+  | "rr" :: bounds :: mimes :: rest ->
+      (* C10: the Writer.msg the parsed Msg denotes (EmlRerender.msg_of_parsed), rendered by the writer model
+         with the boundaries of the real re-render; mimes = name=type table of mime.TypeByExtension *)
+      let t = read_top (ref rest) in
+      let tbl = if mimes = "-" then [] else List.map (fun tok -> match String.index_opt tok '=' with
+          | Some i -> (bytes_of_hex (String.sub tok 0 i), bytes_of_hex (String.sub tok (i + 1) (String.length tok - i - 1)))
+          | None -> ([], [])) (split_on ',' mimes) in
+      let mime_of n = (match List.find_opt (fun (k, _) -> k = n) tbl with Some (_, v) -> v | None -> bytes_of_hex "6170706c69636174696f6e2f6f637465742d73747265616d") in
+      let rb = if bounds = "-" then [] else List.map bytes_of_hex (split_on ',' bounds) in
+      (match M.parse_eml_fixed t with
+       | M.Ok st ->
+           let out = M.rerender mime_of rb st in
+           let str = String.concat "" (List.map (fun b -> String.make 1 (Char.chr (int_of_n b land 255))) out) in
+           Printf.sprintf "%d %s" (String.length str) (Digest.to_hex (Digest.string str))
        | M.Err -> "err"
        | M.Panic -> "panic")
   | ["dec2047"; v] ->
